@@ -347,3 +347,201 @@ class SpaceIsConstant(_Geno):
   def small_models(self):
     from pyvc.contracts import Model
     yield Model({}, {})
+
+
+# ---------------------------------------------------------------------------
+# Binding (`DNA.use_spec`) accepts exactly the members, one level with the
+# children's binding as induction hypothesis  BIND_OK(child, sub-spec):
+#   float        value is a float within [min, max]
+#   space        no value, one child per element, each child binds to its element
+#   multi-choice no value, k children, child i binds to sub-choice i, values
+#                non-decreasing if sorted, pairwise different if distinct
+# and: on success the node is bound to exactly that spec; a refused binding
+# leaves the node's spec as it was (so that a second attempt validates again).
+
+BIND_OK = z3.Function('bind_ok', z3.IntSort(), z3.IntSort(), z3.BoolSort())   # dna id, sub-spec id
+SUBCHOICE = z3.Function('subchoice', z3.IntSort(), z3.IntSort())              # position -> sub-choice spec id
+
+
+class SpecStub:
+  """Stand-in for a DNASpec with exactly the attributes `use_spec` reads."""
+
+
+class SubSpec:
+  """Marker: an abstract sub-specification (element / sub-choice)."""
+
+
+NEL = z3.Function('candidate_num_elements', z3.IntSort(), z3.IntSort())
+ELEMF = z3.Function('candidate_element', z3.IntSort(), z3.IntSort(), z3.IntSort())
+
+
+class CandStub:
+  """Stand-in for a candidate sub-space: `is_space`, and its `elements`."""
+
+
+def _cand_lazy(obj, name):
+  i = obj.ghost['id']
+  if name == 'is_space':
+    return True
+  if name == 'elements':
+    j = z3.Int('ej')
+    return SSeq(z3.Lambda([j], ELEMF(i, j)), NEL(i), lambda z: absobj.ref(SubSpec, z), absobj.ref_id, 'list', z3.IntSort())
+  return NotImplemented
+
+
+class _UseSpec(_Geno):
+  target = 'pyglove.core.geno.base:DNA.use_spec'
+  exc_class_not_a_member = ValueError
+  raises = {ValueError: ('spec_left_as_it_was',)}
+  kind = None
+
+  def stub(self, **fields):
+    base_ = dict(is_space=False, is_categorical=False, is_numerical=False, is_custom_decision_point=False)
+    base_.update(fields)
+    return SObj(SpecStub, base_, name='spec')
+
+  def dna(self, b, value, children):
+    self._old_spec = b.choice('bound_before', [None, SObj(SpecStub, {}, name='previous_spec')])
+    return SObj(geno.DNA, {'value': value, 'children': children, '_spec': self._old_spec}, name='self')
+
+  def setup_policy(self, policy):
+    _policy(policy)
+    import builtins
+    prev = policy.handlers.get(('getattr', SObj))
+
+    def isinstance_h(interp, args, kwargs, frame):
+      from pyvc import axioms
+      v, t = interp.resolve(args[0]), args[1]
+      if isinstance(v, SObj) and v.cls is SpecStub and t is geno.DNASpec:
+        return True
+      return axioms._b_isinstance(interp, args, kwargs, frame)
+    policy.handlers[id(builtins.isinstance)] = isinstance_h
+
+    def getattr_h(interp, obj, name, frame):
+      if isinstance(obj, SObj) and obj.cls is geno.DNA and 'id' in obj.ghost and name == 'use_spec':
+        def use_spec(ip, a, k, o=obj):
+          sub = ip.resolve(a[0])
+          ip.path.event('bind-child', 'use_spec', (o, sub))
+          ip.path.raise_if(z3.Not(BIND_OK(o.ghost['id'], absobj.ref_id(sub))), ExcVal(ValueError, ('child does not bind',)))
+          return o
+        return I.NativeFn(use_spec)
+      if isinstance(obj, SObj) and obj.cls is SpecStub and name == 'subchoice':
+        return I.NativeFn(lambda ip, a, k: absobj.ref(SubSpec, SUBCHOICE(ip.to_z3(a[0]))))
+      if isinstance(obj, SObj) and obj.cls in (SpecStub, SubSpec, CandStub) and name not in obj.fields \
+          and not (obj.lazy is not None and obj.lazy(obj, name) is not NotImplemented):
+        # the stand-in models only what the verified body reads today
+        raise I.Unsupported(f'{obj.cls.__name__} has no model of attribute {name!r}')
+      return prev(interp, obj, name, frame) if prev is not None else NotImplemented
+    policy.handlers[('getattr', SObj)] = getattr_h
+
+    def raw_set(interp, args, kwargs, frame):
+      obj, name, v = interp.resolve(args[0]), args[1], args[2]
+      obj.fields[name] = v
+      return None
+    policy.handlers[('cmethod', object, '__setattr__')] = raw_set
+
+  def ensures_bound_to_this_spec(self, self_, spec, result):
+    return result is self_ and self_._spec is spec
+
+  def raises_spec_left_as_it_was(self, self_):
+    return self_._spec is self._old_spec
+
+
+@register
+class UseSpecFloat(_UseSpec):
+  name = 'DNA.use_spec/float'
+
+  def inputs(self, b):
+    spec_ = self.stub(is_numerical=True, min_value=b.real('min'), max_value=b.real('max'))
+    value = b.choice('value_kind', [b.real('value'), None, 3, 'text'])
+    ch = absobj.ref(ChildrenList, b.int('children_id').z)
+    return dict(self=self.dna(b, value, ch), spec=spec_), {}
+
+  @direct
+  def exc_iff_not_a_member(self, interp, env):
+    v = interp.resolve(env['self_'].fields['value'])
+    sp = env['spec']
+    if not isinstance(v, SReal):
+      return z3.BoolVal(True)       # None, an int, a str: not a float decision
+    return z3.Not(z3.And(sp.fields['min_value'].z <= v.z, v.z <= sp.fields['max_value'].z))
+
+
+@register
+class UseSpecSpace(_UseSpec):
+  name = 'DNA.use_spec/space'
+
+  def inputs(self, b):
+    self._elems = absobj.ref_seq(b, 'elements', SubSpec)
+    b.path.assume(self._elems.len != 1, check=False)    # a one-element space is unwrapped (dummy spec)
+    spec_ = self.stub(is_space=True, elements=self._elems)
+    self._children = self.dna_children(b)
+    return dict(self=self.dna(b, b.optint('value'), self._children), spec=spec_), {}
+
+  @direct
+  def exc_iff_not_a_member(self, interp, env):
+    d = env['self_']
+    v = d.fields['value']
+    el, ch = self._elems, self._children
+    a = z3.Int('ua')
+    each = z3.ForAll([a], z3.Implies(z3.And(a >= 0, a < el.len),
+                                     BIND_OK(z3.Select(ch.arr, a), z3.Select(el.arr, a))))
+    return z3.Not(z3.And(z3.Not(v.present), el.len == ch.len, each))
+
+
+@register
+class UseSpecMultiChoice(_UseSpec):
+  name = 'DNA.use_spec/multi-choice'
+  branch_timeout_ms = 600
+
+  def inputs(self, b):
+    k = b.int('k', lo=2)
+    spec_ = self.stub(is_categorical=True, num_choices=k, sorted=b.bool('sorted'), distinct=b.bool('distinct'))
+    self._spec_stub = spec_
+    self._children = self.dna_children(b)
+    j = z3.Int('cj')
+    b.path.assume(z3.ForAll([j], DISINT(z3.Select(self._children.arr, j))), check=False)
+    return dict(self=self.dna(b, b.optint('value'), self._children), spec=spec_), {}
+
+  @direct
+  def exc_iff_not_a_member(self, interp, env):
+    d = env['self_']
+    v = d.fields['value']
+    s = self._spec_stub
+    ch = self._children
+    a, c = z3.Ints('ma mb')
+    val = lambda i: DVAL(z3.Select(ch.arr, i))
+    each = z3.ForAll([a], z3.Implies(z3.And(a >= 0, a < ch.len), BIND_OK(z3.Select(ch.arr, a), SUBCHOICE(a))))
+    nondecr = z3.ForAll([a], z3.Implies(z3.And(a >= 0, a + 1 < ch.len), val(a) <= val(a + 1)))
+    distinct = z3.ForAll([a, c], z3.Implies(z3.And(a >= 0, a < c, c < ch.len), val(a) != val(c)))
+    return z3.Not(z3.And(z3.Not(v.present), ch.len == s.fields['num_choices'].z, each,
+                         z3.Implies(s.fields['sorted'].z, nondecr), z3.Implies(s.fields['distinct'].z, distinct)))
+
+
+@register
+class UseSpecSingleChoice(_UseSpec):
+  """Single choice whose chosen candidate has zero or several decision points
+  (a candidate with exactly one is unwrapped by the code and not modelled
+  here): the value is an int index within range; a constant candidate takes no
+  child DNA; otherwise one child per element, each binding to its element."""
+  name = 'DNA.use_spec/single-choice'
+
+  def inputs(self, b):
+    self._cands = absobj.ref_seq(b, 'candidates', CandStub, _cand_lazy)
+    b.path.assume(self._cands.len >= 1, check=False)
+    c = z3.Int('cc')
+    b.path.assume(z3.ForAll([c], z3.And(NEL(c) >= 0, NEL(c) != 1)), check=False)
+    spec_ = self.stub(is_categorical=True, num_choices=1, candidates=self._cands)
+    self._children = self.dna_children(b)
+    return dict(self=self.dna(b, b.optint('value'), self._children), spec=spec_), {}
+
+  @direct
+  def exc_iff_not_a_member(self, interp, env):
+    d = env['self_']
+    v = d.fields['value']
+    cands, ch = self._cands, self._children
+    chosen = z3.Select(cands.arr, v.z)
+    a = z3.Int('sa')
+    each = z3.ForAll([a], z3.Implies(z3.And(a >= 0, a < NEL(chosen)), BIND_OK(z3.Select(ch.arr, a), ELEMF(chosen, a))))
+    member = z3.And(v.present, v.z >= 0, v.z < cands.len,
+                    z3.If(NEL(chosen) == 0, ch.len == 0, z3.And(ch.len == NEL(chosen), each)))
+    return z3.Not(member)
